@@ -1,0 +1,49 @@
+//go:build verif
+
+package swap
+
+import "sort"
+
+// VerifRecover is what a restart would continue a stored state machine with:
+// the state table selected by Type and Role and the table entry of Current.
+type VerifRecover struct {
+	Table         string   `json:"table"`           // in_sender / in_receiver / out_sender / out_receiver / "" (no table)
+	Known         bool     `json:"known"`           // States[Current] exists
+	Action        string   `json:"action"`          // action chain of States[Current] ("" when none)
+	FailOnrecover bool     `json:"fail_on_recover"` // States[Current].FailOnrecover
+	Events        []string `json:"events"`          // sorted "event>next" pairs of States[Current]
+	Finished      bool     `json:"finished"`        // IsFinished()
+}
+
+// VerifRecoverView attaches the state table to a stored state machine with
+// the constructors RecoverSwaps uses (same selection by Type and Role, nil
+// services) and returns the entry a restart would continue from. It runs no
+// action.
+func VerifRecoverView(sm *SwapStateMachine) VerifRecover {
+	out := VerifRecover{Finished: sm.IsFinished()}
+	if sm.Type == SWAPTYPE_IN && sm.Role == SWAPROLE_SENDER {
+		sm = swapInSenderFromStore(sm, nil)
+		out.Table = "in_sender"
+	} else if sm.Type == SWAPTYPE_IN && sm.Role == SWAPROLE_RECEIVER {
+		sm = swapInReceiverFromStore(sm, nil)
+		out.Table = "in_receiver"
+	} else if sm.Type == SWAPTYPE_OUT && sm.Role == SWAPROLE_SENDER {
+		sm = swapOutSenderFromStore(sm, nil)
+		out.Table = "out_sender"
+	} else if sm.Type == SWAPTYPE_OUT && sm.Role == SWAPROLE_RECEIVER {
+		sm = swapOutReceiverFromStore(sm, nil)
+		out.Table = "out_receiver"
+	}
+	st, ok := sm.States[sm.Current]
+	if !ok {
+		return out
+	}
+	out.Known = true
+	out.Action = verifActionName(st.Action)
+	out.FailOnrecover = st.FailOnrecover
+	for e, n := range st.Events {
+		out.Events = append(out.Events, string(e)+">"+string(n))
+	}
+	sort.Strings(out.Events)
+	return out
+}
